@@ -140,6 +140,7 @@ MUTANTS = [
     ("hmm-bwd-transpose", ["C37"], HMM, r"transition_n\[:, prev_sample\]", "transition_n[prev_sample, :]"),
     ("hmm-fwd-wrong-axis", ["C37"], HMM, r"prev.reshape\(-1, 1\) \+ transition_n,\n                axis=0,", "prev + transition_n,\n                axis=-1,"),
     ("hmm-density-transpose", ["C37"], HMM, r"\[latent, obs\]", "[obs, latent]"),
+    ("hmc-normal-score-square-outside", ["C28"], HMC, r"score = tfd.Normal\(0.0, 1.0\).log_prob\(v\)\n    if score.shape:\n        return jnp.sum\(score\)\n    else:\n        return score", "return -0.5 * (jnp.sum(v) ** 2 + jnp.size(v) * jnp.log(2 * jnp.pi))"),
     ("subtrace-fold-order", ["C34", "C38"], GF, r"lambda tr, addr: tr.get_inner_trace\(addr\), addresses, self", "lambda tr, addr: tr.get_inner_trace(addr), reversed(addresses), self"),
 ]
 
@@ -181,6 +182,7 @@ TWINS = [
     ("incremental-outwrap-polarity", INC, r"return \[Diff\(v, NoChange\) if not isinstance\(v, Diff\) else v for v in outduals\]", "return [v if isinstance(v, Diff) else Diff(v, NoChange) for v in outduals]"),
     ("mask-bwd-filter", MASK, r"inner_chm.mask\(pre_check\)", "inner_chm.filter(pre_check)"),
     ("switch-retdiffs-rename", SW, r"\bretdiffs\b", "branch_retdiffs"),
+    ("hmc-normal-score-closed-form", HMC, r"score = tfd.Normal\(0.0, 1.0\).log_prob\(v\)\n    if score.shape:\n        return jnp.sum\(score\)\n    else:\n        return score", "return -0.5 * (jnp.sum(v**2) + jnp.size(v) * jnp.log(2 * jnp.pi))"),
     ("docstring-edit", SCAN, r"Prepends the initial accumulator value", "Prepends the first accumulator value"),
     ("comment-shift", DIST, r"(class Distribution\(Generic\[R\], GenerativeFunction\[R\]\):)", "# moved comment\n\n\n\\1"),
 ]
